@@ -38,6 +38,10 @@ type Params struct {
 	Mirror     bool // C04 oracle
 	Visible    bool // C09 oracle: results and visibility against the reference model
 	DefaultTTL time.Duration
+	// Pre: events applied before the search starts (a non-initial start state: the same depth then
+	// reaches one or two steps further into the histories that begin this way). Violations on the
+	// way are the business of the configuration without Pre.
+	Pre []Ev
 }
 
 type Sys struct {
@@ -65,7 +69,11 @@ func New(p *Params) *Sys {
 		panic(err)
 	}
 	// leave the sub-millisecond region of instant 0 behind so that "now" is always k ms + a little
-	return &Sys{P: p, Cl: cl, KV: kv, Ref: map[string]*RefEntry{}, LastTok: map[string][]byte{}, Untracked: map[string]bool{}}
+	s := &Sys{P: p, Cl: cl, KV: kv, Ref: map[string]*RefEntry{}, LastTok: map[string][]byte{}, Untracked: map[string]bool{}}
+	for _, e := range p.Pre {
+		s.Apply(e)
+	}
+	return s
 }
 
 func (s *Sys) live(key string) *RefEntry {
